@@ -345,16 +345,14 @@ def load(obj, classes=None):
             "not {0}".format(type(params).__name__)
         )
 
-    # Remove the class information, as it must be ignored during the
-    # reconstruction of the object
-    raw_jsonclass = obj.pop("__jsonclass__")
+    for key, value in obj.items():
+        if key == "__jsonclass__":
+            # The class information must be ignored during the
+            # reconstruction of the object (the given dictionary is left
+            # untouched: it might be used again, even by another thread)
+            continue
 
-    try:
-        for key, value in obj.items():
-            # Recursive loading
-            setattr(new_obj, key, load(value, classes))
-    finally:
-        # Restore the class information for further usage
-        obj["__jsonclass__"] = raw_jsonclass
+        # Recursive loading
+        setattr(new_obj, key, load(value, classes))
 
     return new_obj
